@@ -208,7 +208,12 @@ def verify_delegation(
     # delegation_name.
     checkformat_signable(untrusted_delegated_metadata)
     try:
-        checkformat_delegating_metadata(untrusted_delegated_metadata)
+        # Only the signed portion decides whether this is delegating metadata:
+        # the "signatures" map is outside the signed data (attacker-controlled)
+        # and must not be able to switch the type check below off.
+        checkformat_delegating_metadata(
+            {"signatures": {}, "signed": untrusted_delegated_metadata["signed"]}
+        )
     except (ValueError, TypeError):
         # If we can't verify that we're verifying more delegating metadata
         # (e.g. we're using root to verify key_mgr), then we don't need to
